@@ -643,6 +643,11 @@ def gen_cli(rng, tier):
             data = data[:-1]                         # last line without a newline
         opts = rng.choice([[], [], ["-c"], ["-c"], ["--compact"]])
         cases.append({"data": data.hex(), "opts": opts})
+    # lines longer than any plausible read buffer (64 KiB, 128 KiB): one valid Eliot message each, between ordinary lines
+    for size, opts in ((66000, []), (140000, ["-c"])) if not big else ((66000, []), (66000, ["-c"]), (140000, []), (140000, ["-c"]), (300000, [])):
+        m = {"task_uuid": "long-line", "task_level": [1], "timestamp": 1.5, "message_type": "big", "blob": "x" * size}
+        data = gen_line(rng, "eliot", False) + b"\n" + json.dumps(m).encode("ascii") + b"\n" + gen_line(rng, "text", False) + b"\n"
+        cases.append({"data": data.hex(), "opts": opts, "long": True})
     return cases
 
 
@@ -686,6 +691,8 @@ def cli_local(case):
 
 
 def model_cli(case):
+    if case.get("long") or len(case["data"]) > 40000:
+        return None          # a 100 KiB string as a Coq list of characters is too slow to evaluate: statement only
     lines = cli_lines(case)
     if not cli_guarded(lines) or cli_local(case) or cli_deep(lines):
         return None
@@ -865,6 +872,13 @@ def gen_filter(rng, tier):
             lines.append((raw + b"\n").hex())
         mode = rng.choice(["run", "run", "main", "main-text"])
         cases.append({"expr": names[i % len(names)] if i < 2 * len(names) else rng.choice(names), "lines": lines, "mode": mode})
+    # Unicode line/paragraph separators and NEL inside string values (orjson writes them raw): one message, one line
+    for mode in ("main", "main-text", "run"):
+        ms = [{"task_uuid": "u", "task_level": [1], "timestamp": 1.0, "message_type": "my:message", "n": 1, "field": "a\u2028b"},
+              {"task_uuid": "u", "task_level": [2], "timestamp": 2.0, "message_type": "my:message", "n": 2, "field": "c\u2029d\u0085e\x1c\x0b\x0c"},
+              {"task_uuid": "u", "task_level": [3], "timestamp": 3.0, "message_type": "other:message", "n": 3}]
+        cases.append({"expr": "identity", "mode": mode,
+                      "lines": [(json.dumps(m, ensure_ascii=False).encode("utf-8") + b"\n").hex() for m in ms]})
     # usage error of the command: no expression / too many arguments
     cases.append({"expr": "identity", "lines": [], "mode": "main", "argv_extra": -1})
     cases.append({"expr": "identity", "lines": [(b'{"n": 1}\n').hex()], "mode": "main", "argv_extra": 1})
